@@ -70,7 +70,7 @@ def run(tier, replay):
                 f.write(json.dumps(c) + "\n")
         # (2) covering set + seeded random cases on the real code
         lib.kverif(GROUP, ["c38", "--out", obs, "--cases", f"{wd}/cases.ndjson", "--random",
-                           600 if tier == "quick" else 8000, "--seed", lib.seed()])
+                           600 if tier == "quick" else 15000, "--seed", lib.seed()])
     lines = lib.read_lines(obs)
     _lean(lines, f"{wd}/obs-lean.ndjson")
     tv = lib.trace_validate("KOAuth2Trace", f"{wd}/obs-lean.ndjson", PID, timeout=1500)
